@@ -133,6 +133,7 @@ impl TransformerContext {
 //@ - final(self).in_specs == old(self).in_specs && final(self).config == old(self).config
 //@ - old(self).scope_stack.len() > 0 ==> final(self).scope_stack.len() == old(self).scope_stack.len()    @@C15.ensure_scope.height
 //@ - old(self).scope_stack.len() == 0 ==> final(self).scope_stack.len() == 1    @@C15.ensure_scope.base
+//@ - old(self).scope_stack.len() > 0 ==> final(self).scope_stack@.drop_last() == old(self).scope_stack@.drop_last()    @@C15.ensure_scope.outer_untouched
 //@ - final(self).vars_set == old(self).vars_set
 //@end
 
@@ -142,6 +143,7 @@ impl TransformerContext {
 //@ | proof { self.vars_set = Ghost(self.vars_set@.push((name@, value@))); }
 //@ ensures
 //@ - scope_frame(*old(self), *final(self))    @@C15.set_var.frame
+//@ - old(self).scope_stack.len() > 0 ==> final(self).scope_stack@.drop_last() == old(self).scope_stack@.drop_last()    @@C15.set_var.innermost_only
 //@ - final(self).config == old(self).config
 //@ - final(self).vars_set@ == old(self).vars_set@.push((name@, value@))
 //@end
